@@ -130,6 +130,18 @@ func main() {
 		res := &idl.Struct{Cat: "struct", Name: fn.Name + "_result", Fields: []*idl.Field{{ID: 0, ExplicitID: true, Name: "success", Type: t.T, Req: idl.ReqOptional}, {ID: 1, ExplicitID: true, Name: "x", Type: idl.StructT(env.X), Req: idl.ReqOptional}}}
 		roots = append(roots, &root{name: args.Name, s: args}, &root{name: res.Name, s: res})
 	}
+	// argument and throws lists that mix explicit and implicit ids with gaps (implicit = previous + 1)
+	{
+		x2 := &idl.Struct{Cat: "exception", Name: "X2", Fields: []*idl.Field{{ID: 1, ExplicitID: true, Name: "why", Type: idl.T(idl.String)}}}
+		env.Main.Add(x2)
+		fn := &idl.Function{Name: "gaps", Ret: i32,
+			Args:   []*idl.Field{{ID: 1, ExplicitID: true, Name: "a", Type: i32}, {ID: 5, ExplicitID: true, Name: "b", Type: idl.T(idl.String)}, {Name: "c", Type: idl.StructT(env.Inner)}, {Name: "d", Type: idl.T(idl.Bool)}, {ID: -2, ExplicitID: true, Name: "e", Type: i32}, {Name: "f", Type: i32}},
+			Throws: []*idl.Field{{ID: 3, ExplicitID: true, Name: "x1", Type: idl.StructT(env.X)}, {Name: "x2", Type: idl.StructT(x2)}}}
+		svc.Functions = append(svc.Functions, fn)
+		args := &idl.Struct{Cat: "struct", Name: fn.Name + "_args", Fields: fn.Args}
+		res := &idl.Struct{Cat: "struct", Name: fn.Name + "_result", Fields: []*idl.Field{{ID: 0, ExplicitID: true, Name: "success", Type: i32, Req: idl.ReqOptional}, {ID: 3, ExplicitID: true, Name: "x1", Type: idl.StructT(env.X), Req: idl.ReqOptional}, {ID: 4, ExplicitID: true, Name: "x2", Type: idl.StructT(x2), Req: idl.ReqOptional}}}
+		roots = append(roots, &root{name: args.Name, s: args}, &root{name: res.Name, s: res})
+	}
 	env.Main.Add(svc)
 	prog := env.Program()
 
